@@ -73,9 +73,12 @@ type evSpec struct {
 	Val     int    `json:"v,omitempty"`
 }
 
+// writeSpec is one access to a storage before the checkpoint: a write of Data at Addr, or
+// (Read) a read of len(Data) bytes at Addr — a read allocates the units it touches too.
 type writeSpec struct {
 	Addr uint64 `json:"addr"`
 	Data []byte `json:"data"`
+	Read bool   `json:"read,omitempty"`
 }
 
 type pageSpec struct {
